@@ -88,7 +88,7 @@ def expect_delivery(eng, ctx, stream, expect, cutsets, label, exact=True):
     for cuts in cutsets:
         chunks = split(stream, cuts)
         w = {"kind": "p1", "chunks": chunks, "expect": [SBytes(e) for e in expect], "exact": exact}
-        ctx.intend(w)
+        ctx.intend(w, alts=lambda: ({"kind": "p1", "chunks": split(stream, c), "expect": [SBytes(e) for e in expect], "exact": exact} for c in cutsets))
         _, got = read_chunks(chunks)
         if first:
             ctx.witness, ctx.obs, first = w, p1_sig(got), False
@@ -185,6 +185,10 @@ def c16_scenarios(tier):
     long_.append(Scenario("p1 2 free noise octets + 120 readouts of 104 octets in 104-octet chunks from offset 20", c16_long_suffix_path(2, 120, 104, 104, 20),
                           bounds={"noise": "2 free octets", "suffix": "120 readouts (12 KiB), chunk boundaries never on a readout boundary", "claim": "every readout except possibly the first is delivered"},
                           domains=("p1",), frontier=3, workers=4, assumptions=inject.assumptions(("p1",)), replay_cap=10))
+    for (nr, size, chunk, offset) in ([(30, 300, 8600, 450), (32, 300, 9100, 307)] if q else [(30, 300, 8600, 450), (32, 300, 9100, 307), (40, 300, 8191, 302), (12, 1000, 8192, 1500), (30, 300, 8000, 310)]):
+        long_.append(Scenario(f"p1 2 free noise octets + {nr} readouts of ~{size} octets: first call {offset} octets, then calls of {chunk}", c16_long_suffix_path(2, nr, size, chunk, offset),
+                              bounds={"noise": "2 free octets", "suffix": f"{nr} readouts; the first call ends inside readout 1 or 2, the second call brings more than 8 KiB at once", "claim": "every readout except possibly the first is delivered"},
+                              domains=("p1",), frontier=3, workers=2, assumptions=inject.assumptions(("p1",)), replay_cap=10))
     return long_ + [Scenario(f"p1 free noise k={k} (+readout-looking prefixes) + 3 readouts", c16_noise_path(k),
                      bounds={"noise": f"{k} free octets alone | after a truncated readout | before '/ABC'", "suffix": "3 spec readouts (one free digit)", "splittings": "one call, every cut around the noise/readout boundary"},
                      domains=("p1",), frontier=4, assumptions=inject.assumptions(("p1",)), replay_cap=60)]
